@@ -1,5 +1,6 @@
 /- driver family `pipe.*`: specification, trace acceptor for the parallel generator, serial machine -/
 import Gpv.Model.Pipeline
+import Gpv.Model.PipeInfo
 import Gpv.Drv.Util
 namespace Gpv.Drv
 open Gpv Gpv.Pipe
@@ -176,6 +177,18 @@ def pipeDispatch (ws : List String) : List String :=
         | some tail, some xs => [acceptTrace ⟨nw, ec, sk = "1"⟩ xs tail pr yl evs]
         | _, _ => ["bad-op"]
       | _, _, _, _, _ => ["bad-op"]
+  | ["pipe.info", p, y] =>
+      match p.toNat?, y.toNat? with
+      | some p, some y => [Gpv.PipeInfo.str p y]
+      | _, _ => ["bad-op"]
+  | ["pipe.call", k] =>
+      let kind? : Option ArgKind := if k = "iterator" then some .iterator else if k = "element" then some .element else none
+      match kind? with
+      | some kind =>
+        match call kind (fun _ => ()) (fun _ => ()) with
+        | .direct _ => ["direct"]
+        | .stream _ => ["stream"]
+      | none => ["bad-op"]
   | "pipe.sspec" :: sk :: rest =>
       match splitBars' rest with
       | [[t], outs] =>
